@@ -48,7 +48,7 @@ BUILTIN = {
     'int64_t': 'long', 'uint8_t': 'unsigned char', 'int8_t': 'signed char',
     'uint16_t': 'unsigned short', 'int16_t': 'short', 'ptrdiff_t': 'long',
     'std::ptrdiff_t': 'long', 'long double': 'long double', 'std::nullptr_t': 'void*',
-    'nullptr_t': 'void*',
+    'nullptr_t': 'void*', 'std::memory_order': 'int', 'memory_order': 'int',
 }
 
 DROP_NS = ('manifold::', '(anonymous namespace)::', 'collider_internal::', '(anonymous)::')
@@ -128,6 +128,7 @@ class Index:
         self.pattern = set()   # ids of dependent (uninstantiated) decls
         self.parent = {}       # id -> enclosing decl id (lexical)
         self.aliases = {}      # alias name (plain and qualified) -> {underlying type strings}
+        self.aliases_norm = {}
         self._walk(root, '', False, None)
         self._fix_out_of_line()
 
@@ -210,6 +211,7 @@ class Index:
                 if tt and tt != name:
                     self.aliases.setdefault(name, set()).add(tt)
                     self.aliases.setdefault(ctx + name, set()).add(tt)
+                    self.aliases_norm.setdefault(strip_const_deep(ctx + name), set()).add(tt)
             for c in n.get('inner', []):
                 self._walk_body(c, nid, dep)
             return
@@ -285,7 +287,13 @@ class Index:
 
     def record_of_method(self, n):
         pid = n.get('_semantic_parent') or n.get('parentDeclContextId') or self.parent.get(n['id'])
-        return self.by_id.get(pid)
+        r = self.by_id.get(pid)
+        hops = 0
+        while r is not None and r.get('kind') in ('FunctionTemplateDecl', 'ClassTemplateDecl') and hops < 4:
+            pid = r.get('parentDeclContextId') or self.parent.get(r['id'])
+            r = self.by_id.get(pid)
+            hops += 1
+        return r
 
 
 # --------------------------------------------------------------- lowering ---
@@ -397,6 +405,11 @@ class Lowerer:
         """replace typedef / alias names the AST left unresolved (reference and
         template-argument positions) by their underlying types"""
         al = self.idx.aliases
+        m = re.match(r'^(.*>)::([A-Za-z_]\w*)$', s)
+        if m:
+            und = self.idx.aliases_norm.get(strip_const_deep(s))
+            if und and len(und) == 1:
+                return self.resolve_aliases(next(iter(und)))
         for _ in range(6):
             changed = False
 
@@ -652,6 +665,21 @@ class Lowerer:
                 return self.parse_type(rt)
         raise Unsupported('cannot parse signature %r' % sig)
 
+    def ret_type_of(self, f):
+        """declared return type; when the signature carries unresolved sugar
+        (enable_if_t, apply_t, ...) fall back to the type clang gave the call expression"""
+        try:
+            rt = self.ret_type(f.node)
+            base = rt.to if rt.kind in ('ref', 'ptr') else rt
+            if base.kind == 'rec' and base.key not in self.idx.records and not base.key.startswith(
+                    ('std::pair<', 'std::array<', 'std::vector<', 'std::atomic<')):
+                raise Unsupported('sugar')
+            return rt
+        except Unsupported:
+            if hasattr(f, 'ret_hint'):
+                return f.ret_hint
+            raise
+
     def lower_fn(self, f):
         n = f.node
         self.cur = f
@@ -692,7 +720,7 @@ class Lowerer:
             retc = 'int'
             rett = Ty('b', name='int')
         else:
-            rett = self.ret_type(n)
+            rett = self.ret_type_of(f)
             retc = self.cty(Ty('ptr', to=rett.to) if rett.kind == 'ref' else rett)
         f.rett = rett
         body = self.body_of(n)
@@ -749,7 +777,11 @@ class Lowerer:
                     if not ini:
                         raise Unsupported('default member init missing for %s' % fname)
                     init = ini[0]
-                out.append('  self->%s = %s;' % (fname, self.init_expr(init, self.ty(c['anyInit']['type']))))
+                fty = self.ty(c['anyInit']['type'])
+                if fty.kind == 'ref':
+                    out.append('  self->%s = %s;' % (fname, self.addr(init)))
+                else:
+                    out.append('  self->%s = %s;' % (fname, self.init_expr(init, fty)))
             elif 'baseInit' in c:
                 bt = self.ty(c['baseInit'])
                 self.need_record(bt)
@@ -1144,7 +1176,7 @@ class Lowerer:
                                 'ConstantExpr', 'SubstNonTypeTemplateParmExpr', 'ParenExpr',
                                 'CXXFunctionalCastExpr_') or \
                 (e.get('kind') == 'ImplicitCastExpr' and e.get('castKind') in ('NoOp',)):
-            e = e['inner'][0]
+            e = e['inner'][-1] if e.get('kind') == 'SubstNonTypeTemplateParmExpr' else e['inner'][0]
         return e
 
     def strip_cleanups(self, e):
@@ -1222,7 +1254,9 @@ class Lowerer:
     e_MaterializeTemporaryExpr = e_ExprWithCleanups
     e_CXXBindTemporaryExpr = e_ExprWithCleanups
     e_ConstantExpr = e_ExprWithCleanups
-    e_SubstNonTypeTemplateParmExpr = e_ExprWithCleanups
+
+    def e_SubstNonTypeTemplateParmExpr(self, e):
+        return self.expr(e['inner'][-1])   # [parameter decl, substituted value]
 
     def e_IntegerLiteral(self, e):
         t = self.ty(e['type'])
@@ -1353,6 +1387,11 @@ class Lowerer:
     def enum_const(self, r):
         d = self.idx.by_id.get(r['id'])
         if d is None:
+            mo = {'memory_order_relaxed': 0, 'memory_order_consume': 1, 'memory_order_acquire': 2,
+                  'memory_order_release': 3, 'memory_order_acq_rel': 4, 'memory_order_seq_cst': 5}
+            if r.get('name') in mo:
+                self.note('std::memory_order constants lowered to integers; every atomic operation is treated as seq_cst')
+                return '%d /*%s*/' % (mo[r['name']], r['name'])
             raise Unsupported('enum constant %s not in repo AST' % r.get('name'))
         pid = self.idx.parent.get(d['id'])
         en = self.idx.by_id.get(pid)
@@ -1412,6 +1451,8 @@ class Lowerer:
     def to_base(self, e, sub):
         st = self.ty(sub['type'])
         tt = self.ty(e['type'])
+        if (st.deref().key or '').startswith('std::atomic<'):
+            return self.expr(sub)   # base subobject of the std::atomic model is the model itself
         if st.kind == 'ptr':
             base_t = tt.deref()
             self.need_record(st.to)
@@ -1429,6 +1470,9 @@ class Lowerer:
         t = self.ty(e['type'])
         if ck == 'ToVoid':
             return '((void)%s)' % self.expr(sub)
+        if ck == 'LValueBitCast' or (ck == 'BitCast' and self.is_lvalue(e) and t.kind != 'ptr'):
+            # reinterpret_cast<T&>(x): same object viewed as T
+            return '(*(%s*)%s)' % (self.cty(t.noref()), self.addr(sub))
         if ck in ('IntegralToBoolean', 'FloatingToBoolean', 'PointerToBoolean'):
             return '((%s) != 0)' % self.expr(sub)
         if ck in ('DerivedToBase', 'UncheckedDerivedToBase'):
@@ -1593,11 +1637,14 @@ class Lowerer:
         if d['id'] in self.idx.pattern:
             raise Unsupported('call to dependent template pattern %s' % q)
         f = self.request_fn(d)
+        if not hasattr(f, 'ret_hint'):
+            ht = self.ty(e['type'])
+            f.ret_hint = Ty('ref', to=ht) if self.is_lvalue(e) and ht.kind != 'ref' else ht
         a = self.args_for(d, args)
         if obj is not None:
             a = [obj] + a
         txt = '%s(%s)' % (f.cname, ', '.join(a))
-        rt = self.ret_type(d) if d.get('kind') != 'CXXConstructorDecl' else None
+        rt = self.ret_type_of(f) if d.get('kind') != 'CXXConstructorDecl' else None
         if rt is not None and rt.kind == 'ref':
             return '(*%s)' % txt
         return txt
@@ -1904,6 +1951,11 @@ class Lowerer:
                                      % (m, bt.name, ect, ect))
                     parts = ['%s(%s, %d)' % (hr, obj, len(vals))] + ['(%s)->_data[%d] = %s' % (obj, k, v) for k, v in enumerate(vals)]
                     return '(%s)' % ', '.join(parts)
+        if key.startswith('std::__atomic_base<'):
+            # base-class subobject of std::atomic<T>: same model
+            key = 'std::atomic<' + key[len('std::__atomic_base<'):]
+            bt = self.parse_type(key)
+            obj = '((struct %s*)%s)' % (bt.name, obj)
         if key.startswith('std::atomic<'):
             self.need_record(bt)
             self.note('std::atomic operation %s lowered sequentially (seq_cst, single thread)' % name)
